@@ -70,6 +70,8 @@ def _implicit_serdes(ctx: Ctx, discharged: List[Dict[str, Any]]) -> Any:
                 name = dotted(n.func) or ""
                 if name == "struct.unpack":
                     ok = _unpack_sizes_agree(fn, n)
+                    if ok is None:
+                        raise AnalysisError("%s: cannot establish how many bytes reach %s (expected a buffer filled by bit_length // 8 reads of 8 bits)" % (fn.qualname, norm(n)[:60]))
                     if ok:
                         rec(fn, n, "format sizes equal the number of bytes read (bit_length // 8 reads of 8 bits)")
                     else:
@@ -105,8 +107,11 @@ def _index_guarded(fn: FuncInfo, n: ast.Subscript, pm: Dict[ast.AST, ast.AST]) -
     return False
 
 
-def _unpack_sizes_agree(fn: FuncInfo, call: ast.Call) -> bool:
-    """fmt chosen by `schema.bit_length == N` branches; the buffer has bit_length // 8 bytes read 8 bits at a time."""
+def _unpack_sizes_agree(fn: FuncInfo, call: ast.Call) -> Optional[bool]:
+    """
+    fmt chosen by `schema.bit_length == N` branches; the buffer has bit_length // 8 bytes read 8 bits at a time.
+    True: sizes agree.  False: a format's size differs from its branch's byte count.  None: shape not recognised.
+    """
     fmts: Dict[int, str] = {}
     for st in ast.walk(fn.node):
         if isinstance(st, ast.If) and isinstance(st.test, ast.Compare) and norm(st.test.left).endswith(".bit_length") and isinstance(st.test.ops[0], ast.Eq) and isinstance(st.test.comparators[0], ast.Constant):
@@ -114,16 +119,18 @@ def _unpack_sizes_agree(fn: FuncInfo, call: ast.Call) -> bool:
                 if isinstance(b, ast.Assign) and norm(b.targets[0]) == norm(call.args[0]) and isinstance(b.value, ast.Constant):
                     fmts[st.test.comparators[0].value] = b.value.value
     if not fmts:
-        return False
+        return None
+    # the byte count expression and the loop that fills the buffer
+    src = norm(fn.node)
+    if not ("range(schema.bit_length // 8)" in src.replace("byte_count", "schema.bit_length // 8") and "read_bits(8)" in src):
+        return None
     for bits, f in fmts.items():
         try:
             if _struct.calcsize(f) != bits // 8:
                 return False
         except _struct.error:
             return False
-    # the byte count expression and the loop that fills the buffer
-    src = norm(fn.node)
-    return "range(schema.bit_length // 8)" in src.replace("byte_count", "schema.bit_length // 8") and "read_bits(8)" in src
+    return True
 
 
 def rule_r1(ctx: Ctx) -> None:
@@ -396,41 +403,89 @@ def _max0_arg(e: ast.AST) -> Optional[ast.AST]:
     return None
 
 
-def rule_r5(ctx: Ctx) -> None:
-    ctx.rule("C07.R5", "limit accounting agrees between siblings: the bits still available to a bounded reader are the same quantity in read_bits and in remaining_bits, and equal the given limit right after construction", min_instances=2)
-    rb = ctx.func(SD + "._BitReader.read_bits")
-    rem = ctx.func(SD + "._BitReader.remaining_bits")
+def bitreader_limit_fields(ctx: Ctx) -> Tuple[str, Set[str], Dict[str, ast.AST]]:
+    """(name of the constructor's limit parameter, the fields derived from it, all constructor stores)"""
     init = ctx.func(SD + "._BitReader.__init__")
-    # read_bits: the quantity compared with bit_length on the limited branch
-    avail_rb = None
-    for p in paths_of(rb.node):
-        for c, pol in p.conds:
-            if not isinstance(c, tuple) and isinstance(c, ast.Compare) and norm(c.left) == rb.params[1] and isinstance(c.ops[0], ast.Gt):
-                avail_rb = _max0_arg(c.comparators[0])
-    avail_rem = None
-    for p in paths_of(rem.node):
-        if p.kind == "return" and any(not isinstance(c, tuple) and "self._bit_limit is not None" == norm(c) and pol for c, pol in p.conds):
-            avail_rem = _max0_arg(p.value)
-    if avail_rb is None or avail_rem is None:
-        ctx.fail("_serdes._BitReader", "available bits", "cannot find max(0, limit - consumed) in read_bits / remaining_bits", where=rb.where(), detail={"read_bits": norm(avail_rb) if avail_rb else None, "remaining_bits": norm(avail_rem) if avail_rem else None})
-        return
-    la, lr = lin_of(avail_rb), lin_of(avail_rem)
-    ctx.check((la - lr).is_zero(), "_serdes._BitReader", "read_bits: %s ; remaining_bits: %s" % (la, lr), "both must compute the same remaining bit count, otherwise header validation and reading disagree about the sub-reader's window", rem.where())
-    # right after construction the available count equals the limit argument
-    stores = {}
+    stores: Dict[str, ast.AST] = {}
     for st in walk_no_nested(init.node):
         if isinstance(st, (ast.Assign, ast.AnnAssign)):
             t = st.targets[0] if isinstance(st, ast.Assign) else st.target
             if norm(t).startswith("self._") and st.value is not None:
                 stores[norm(t)] = st.value
-    env = {k: v for k, v in stores.items() if k in ("self._bit_limit", "self._bit_offset", "self._start_offset")}
-    if len(env) != 3:
-        raise AnalysisError("_BitReader.__init__: expected stores to _bit_limit/_bit_offset/_start_offset, found %s" % sorted(env))
+    limit_param = [p for p in init.params if "limit" in p]
+    if len(limit_param) != 1:
+        raise AnalysisError("_BitReader.__init__: cannot identify the limit parameter among %s" % init.params)
+    lp = limit_param[0]
+    limit_fields = {k for k, v in stores.items() if any(isinstance(x, ast.Name) and x.id == lp for x in ast.walk(v))}
+    if not limit_fields:
+        raise AnalysisError("_BitReader.__init__ stores nothing derived from %s" % lp)
+    return lp, limit_fields, stores
+
+
+class _BoundedCase(ast.NodeTransformer):
+    """specialise an expression to the bounded reader: (X if <limit> is None else Y) -> Y, (Y if <limit> is not None else X) -> Y"""
+
+    def __init__(self, limit_names: Set[str]):
+        self.names = limit_names
+
+    def visit_IfExp(self, n: ast.IfExp) -> ast.AST:
+        n = self.generic_visit(n)  # type: ignore
+        t = n.test
+        if isinstance(t, ast.Compare) and len(t.ops) == 1 and isinstance(t.comparators[0], ast.Constant) and t.comparators[0].value is None and norm(t.left) in self.names:
+            if isinstance(t.ops[0], ast.Is):
+                return n.orelse
+            if isinstance(t.ops[0], ast.IsNot):
+                return n.body
+        return n
+
+
+def rule_r5(ctx: Ctx) -> None:
+    ctx.rule("C07.R5", "limit accounting agrees between siblings: the bits still available to a bounded reader are the same quantity in read_bits and in remaining_bits, and equal the given limit right after construction", min_instances=2)
     from ..decide import substitute
 
-    at_init = lin_of(substitute(avail_rem, env))
-    want = Lin({"bit_limit": 1})
-    ctx.check((at_init - want).is_zero(), init.short, "available at construction = %s" % at_init, "a fresh bounded reader has exactly `bit_limit` bits available, wherever it starts", init.where(), {k: norm(v) for k, v in env.items()})
+    rd = ctx.cls(SD + "._BitReader")
+    rb = ctx.func(SD + "._BitReader.read_bits")
+    rem = ctx.func(SD + "._BitReader.remaining_bits")
+    init = ctx.func(SD + "._BitReader.__init__")
+    lp, limit_fields, stores = bitreader_limit_fields(ctx)
+    restored: Set[str] = set()
+    for name, m in rd.methods.items():
+        if name == "__init__":
+            continue
+        for st in ast.walk(m.node):
+            tg = []
+            if isinstance(st, ast.Assign):
+                tg = st.targets
+            elif isinstance(st, (ast.AugAssign, ast.AnnAssign)):
+                tg = [st.target]
+            restored |= {norm(t) for t in tg if norm(t).startswith("self._")}
+    bc = _BoundedCase({lp} | limit_fields)
+    fixed_env = {k: bc.visit(ast.parse(norm(v), mode="eval").body) for k, v in stores.items() if k not in restored}
+    init_env = {k: bc.visit(ast.parse(norm(v), mode="eval").body) for k, v in stores.items()}
+
+    def limited(c: Any, pol: bool) -> bool:
+        return pol and not isinstance(c, tuple) and isinstance(c, ast.Compare) and isinstance(c.ops[0], ast.IsNot) and norm(c.left) in limit_fields
+
+    # read_bits: the quantity compared with bit_length on the limited branch
+    avail_rb = None
+    for p in paths_of(rb.node):
+        if not any(limited(c, pol) for c, pol in p.conds):
+            continue
+        for c, pol in p.conds:
+            if not isinstance(c, tuple) and isinstance(c, ast.Compare) and norm(c.left) == rb.params[1] and isinstance(c.ops[0], ast.Gt):
+                avail_rb = _max0_arg(c.comparators[0])
+    avail_rem = None
+    for p in paths_of(rem.node):
+        if p.kind == "return" and any(limited(c, pol) for c, pol in p.conds):
+            avail_rem = _max0_arg(p.value)
+    if avail_rb is None or avail_rem is None:
+        raise AnalysisError("_BitReader: cannot find max(0, <available>) on the bounded branch of read_bits (%s) / remaining_bits (%s)" % (norm(avail_rb) if avail_rb else None, norm(avail_rem) if avail_rem else None))
+    la, lr = lin_of(substitute(avail_rb, fixed_env)), lin_of(substitute(avail_rem, fixed_env))
+    ctx.check((la - lr).is_zero(), "_serdes._BitReader", "read_bits: %s ; remaining_bits: %s" % (la, lr), "both must compute the same remaining bit count, otherwise header validation and reading disagree about the sub-reader's window", rem.where(), {"read_bits": norm(avail_rb), "remaining_bits": norm(avail_rem), "fields fixed at construction": {k: norm(v) for k, v in fixed_env.items()}})
+    # right after construction the available count equals the limit argument
+    at_init = lin_of(substitute(avail_rem, init_env))
+    want = Lin({lp: 1})
+    ctx.check((at_init - want).is_zero(), init.short, "available at construction = %s" % at_init, "a fresh bounded reader has exactly `%s` bits available, wherever it starts" % lp, init.where(), {k: norm(v) for k, v in init_env.items()})
 
 
 def rule_r4(ctx: Ctx) -> None:
